@@ -6,7 +6,7 @@ From Coq Require Import List NArith ZArith Bool Lia Arith.
 Import ListNotations.
 Require Import Verif.Lib.Wire Verif.Lib.Text Verif.Lib.PathNorm Verif.Lib.Utf8 Verif.Lib.Percent Verif.Lib.C02Expr
                Verif.Lib.C07Types Verif.Gen.Facts_C02 Verif.Gen.Facts_C07 Verif.Model.C02 Verif.Proofs.C02
-               Verif.Model.C07 Verif.Proofs.C07_rt Verif.Proofs.C07 Verif.Gen.Code_C07.
+               Verif.Proofs.C02_gen Verif.Model.C07 Verif.Proofs.C07_rt Verif.Proofs.C07 Verif.Gen.Code_C07.
 Close Scope N_scope.
 
 (* ------------------------------------------------------------ reference: the lineage of a position *)
